@@ -13,6 +13,7 @@ func init() {
 	register(&Prop{ID: "C04", Run: runC04,
 		Technique: "static analysis: decision tables read off edge-dominance condition sets (go/ssa), must-pass-through ordering, value-flow on returns",
 		Decided: []string{
+			"Scheduler.lastError and the other lock-protected run state are written with their mutex held everywhere (C08.state-lock, shared)",
 			"Scheduler.Status returns each outcome constant exactly under the oracle's conditions (canceled∧¬allSucceeded / ¬started / running / lastError!=nil / else success) (C04.status-table)",
 			"isSucceed returns true only after all nodes were seen and skips only finished/skipped nodes (C04.succeed-table)",
 			"every store of failed into a step's status is paired with a write of lastError in the same cell (C04.error-pairing)",
@@ -40,6 +41,7 @@ func runC04(e *Env) {
 	c05SignalFanout(e, s) // `canceled iff stopped`: every accepted stop sets the flag the outcome is read from
 	c04PrecondFirst(e, s)
 	c04HandlerStatus(e, s)
+	cLockDiscipline(e) // lastError, which decides failed vs. succeeded, is written under the scheduler's mutex everywhere
 }
 
 func calleeIs(v ssa.Value, suffix string) bool {
